@@ -1110,6 +1110,8 @@ fn arity(out: &mut Vec<GSpec>) {
             // alternatives that differ only in how many iterations an open-ended counted repetition demands
             rules.push(RuleSpec::helper("km3", 'N', "ka{3,}"));
             rules.push(RuleSpec::helper("km", 'N', "ka{2,}"));
+            rules.push(RuleSpec::helper("ki", 'N', "^\"aa\""));
+            rules.push(RuleSpec::new("cmi", 'N', "ki | ka"));
             rules.push(RuleSpec::new("cm", 'N', "km3 | km | ka"));
             rules.push(RuleSpec::new("cmx", 'C', "km3 | km | kb"));
             rules.push(RuleSpec::new("r", 'N', "ka*"));
@@ -1152,6 +1154,9 @@ fn arity(out: &mut Vec<GSpec>) {
                 }
             }
             inputs.push(" a".to_string());
+            inputs.push("Aa".to_string());
+            inputs.push("AA ".to_string());
+            inputs.push("aA#".to_string());
             inputs.push("a a a a".to_string());
             inputs.push("a#a a #a#".to_string());
             inputs.sort();
@@ -1271,6 +1276,9 @@ fn sub_ci(out: &mut Vec<GSpec>) {
         RuleSpec::new("k2", 'S', "^\"a\" ~ ^\"b\"?"),
         RuleSpec::new("k3", 'S', "(^\"a\" | ^\"b\")*"),
         RuleSpec::new("ka", 'A', "^\"ab\" ~ ^\"a\"?"),
+        // alternatives whose content renders alike: only the variant tells them apart
+        RuleSpec::new("kc", 'S', "\"a\" | \"b\""),
+        RuleSpec::new("kd", 'S', "(\"a\" | \"b\" | \"A\")+"),
     ];
     assert!(valid(&rules));
     out.push(GSpec {
